@@ -52,10 +52,6 @@ impl LK {
             LK::Command => WarpLaneKind::Command,
         }
     }
-    /// Value-like lanes hold one current body that a sync re-sends.
-    pub fn has_value_state(&self) -> bool {
-        matches!(self, LK::Value)
-    }
 }
 
 #[derive(Clone, Debug)]
@@ -109,7 +105,6 @@ pub enum LaneCtl {
     /// Value / command lane: agent-side change of the current body.
     Set(Bytes),
     Map(MapOpText),
-    Supply(Bytes),
     /// `n` supply items `first..first+n`, each padded to at least `pad` bytes.
     Burst { first: u64, n: u32, pad: usize },
     SyncMode(SyncMode),
@@ -341,11 +336,6 @@ impl Lane {
         self.pending.clear();
     }
 
-    fn sync_frames_left(&self, p: &PendingSync) -> bool {
-        let _ = p;
-        true
-    }
-
     /// Emit up to `max` frames of the pending syncs (oldest first). Returns the number written.
     async fn advance_syncs(&mut self, max: usize) -> usize {
         let mut written = 0;
@@ -355,7 +345,6 @@ impl Lane {
                 return written;
             }
             let Some(mut p) = self.pending.pop_front() else { break };
-            let _ = self.sync_frames_left(&p);
             let frame = match self.spec.kind {
                 LK::Value => {
                     if !p.value_sent {
@@ -479,11 +468,6 @@ impl Lane {
             LaneCtl::Map(op) => {
                 if self.spec.kind == LK::Map {
                     self.apply_map(op).await;
-                }
-            }
-            LaneCtl::Supply(b) => {
-                if self.spec.kind == LK::Supply {
-                    self.supply(b).await;
                 }
             }
             LaneCtl::Burst { first, n, pad } => {
